@@ -52,6 +52,9 @@ func VerifC20Backup(h *verifh.H) {
 		if h.Param("wipeJob", 0) == 1 {
 			h.Assume(op == 0 || op == 1 || op == 5) // write, backup run, wipe
 		}
+		if h.Param("faultJob", 0) == 1 {
+			h.Assume(op == 0 || op == 1 || op == 2 || op == 6) // write, backup run, restart, faulty backup run
+		}
 		if k == nops-1 {
 			op = 1 // histories end with a backup run (the interesting observation point)
 		}
@@ -92,6 +95,19 @@ func VerifC20Backup(h *verifh.H) {
 			got := vObsBackup(h, rhub)
 			h.Assert(got == atStart, "the restored backup answers as the source did when the run started :: run="+itoa(runs)+" restored="+got+" source="+atStart)
 			_ = rhub.Store.Close()
+		case 6: // a backup run during which the backup file cannot be written (its volume is full); the
+			// fault is gone afterwards. The run may fail; nothing it did not write may count as backed up.
+			if wiped {
+				h.Assume(false)
+			}
+			kv := location + "/datahub-backup.kv"
+			if h.Symbolic() {
+				h.FailWrites("/datahub-backup.kv")
+			} else {
+				h.FailWrites(kv)
+			}
+			_ = vRun(bm)
+			h.FailWrites("")
 		case 3: // first use of a new namespace (one commit carrying lasting information)
 			_, err := hub.Store.NamespaceManager.AssertPrefixMappingForExpansion("http://example.com/n" + itoa(k) + "/")
 			h.Assert(err == nil, "namespace asserted")
